@@ -3,7 +3,7 @@
 from common_props import COMMON_TRUSTED
 
 CFG = {
-    "engines": [["relayfwd", 90, 900], ["relaydiff", 600, 6000], ["relayappend", 40, 400]],
+    "engines": [["relayfwd", 90, 400], ["relaydiff", 600, 4000], ["relayappend", 40, 300]],
     "rule": "relayfwd/lazyreq (12 per scenario): call req first-frame payloads built from the protocol layout (service 0..255 bytes, 0..25 "
             "transport headers incl. duplicates of as/cn/rd/rk, ttl {0,1,..,2^32-1}, all checksum type bytes, arg sizes up to multi-frame, "
             "frame limits 700..65519) plus truncations, bit flips, random bytes, out-of-range checksum types, through the real "
@@ -48,8 +48,9 @@ CFG = {
         "PropagateCancel=true is modelled but not exercised, call res frames with an empty payload (the code reads a byte beyond the sized payload)",
         "no 2^32 wrap of a connection's id counter within the lifetime of a call (hypothesis of C08_remap_injective/C08_fresh_id/C08_order; "
         "the wrap itself is exercised by the engine)",
-        "a call req whose first frame does not contain arg1 and the arg2 length (peers using tiny frames) is not routable by the lazy parser: "
-        "the relay drops it without an error frame (model and code agree; excluded from C08_order by `plain`)",
+        "KNOWN FINDING c08:arg1-not-in-first-frame-dropped: a call req whose first frame does not contain arg1 and the arg2 length (peers using "
+        "tiny frames) is dropped by the relay without an error frame although a server accepts it directly (model and code agree: "
+        "C08_order_refuted; C08_order_partial carries the hypothesis that the lazy parser accepts the call req)",
         "arg2 appends require arg scheme thrift, >= 2 bytes of arg2 and arg2 (plus the arg3 length) inside the first frame; otherwise the call "
         "is failed with relay-arg2-modify-failed (model and code agree); an arg2 that ends exactly at the end of the first frame counts as fragmented",
         "RelayHost error messages containing '%' are passed through fmt.Sprintf by relay.go:443 (same family as the C20 finding); not generated",
